@@ -1,5 +1,6 @@
 import ComposeVerif.Lemmas.C01Pipeline
 import ComposeVerif.Model.C01Pipeline
+import ComposeVerif.Lemmas.C01PipeConv
 import ComposeVerif.Props.C01
 import ComposeVerif.Props.C04
 import ComposeVerif.Props.C11
@@ -157,6 +158,16 @@ theorem ps_ofValidate (v : Val) : PS validateSites (ofValidate v (Validate.valid
   | ok => rw [hv] at e; cases e
   | err c => rw [hv] at e; cases e
   | panic t => rw [hv] at e; simp only [ofValidate] at e; cases e; exact Pipeline.validate_only_panic_sites v _ hv
+
+/-- **the glue is lossless**: the `GoVal` ↔ `Val` conversions between the walkers' models and the other owners' models are
+inverse to each other on everything the composition passes through them — every `Val`, and every tree that `convert` +
+`fixEmpty` produce (no nil slice, no `map[interface{}]interface{}`) -/
+theorem conversions_lossless :
+    (∀ v : Val, toVal (ofVal v) = v) ∧
+    (∀ raw g : GoVal, convert raw = .ok g → ofVal (toVal (fixEmpty g)) = fixEmpty g) :=
+  ⟨toVal_ofVal, fun raw g h =>
+    have hw := walkers_establish_schema_input raw g h
+    ofVal_toVal _ hw.2 hw.1⟩
 
 /-- **one document**: `processRawYaml` — convert, interpolate, fixEmpty, extends / include, merge, unicity, schema,
 canonical, omitEmpty, unicity — has no panic outcome, for every option set, parameter set, accumulated `dict` and raw
